@@ -222,9 +222,12 @@ def run_property(pid, tier, seed, jobs=None):
     unreachable = [r["shape"] for r in ok if r["reachable"] is False]
     if unreachable:
         harness_errors.append(f"vacuity twin failed (no satisfiable path) for shapes {unreachable[:5]}")
-    if nonrepro and not confirmed:
-        harness_errors.append(f"{len(nonrepro)} solver model(s) did not reproduce on the real code (model/UF artefact), e.g. "
-                              + json.dumps(nonrepro[0], default=str)[:1500])
+    # A solver model that does not reproduce on the real code (an interpretation of an uninterpreted function no real function has,
+    # a float effect outside the real-number model, a path the engine only assumed feasible) is NOT a violation and not a harness
+    # failure either: the obligation is inconclusive.  The replay on the real code is the arbiter of what is reported as VIOLATION.
+    for cex in nonrepro:
+        inconcl.append((cex["shape"], {"obligation": cex["obligation"], "solver": cex.get("solver", "?"),
+                                       "note": "solver model did not reproduce on the real code: " + str(cex["replay"].get("detail"))[:160]}))
 
     # 3. report
     for hit, cex in known_hits:
